@@ -139,7 +139,7 @@ def main():
                     % (("3", "5-8") if tier == "thorough" else ("2", "4-6")),
             "exhaustive": True,
         }
-        rc = verdict.finish()
+        rc = verdict.finish(max_print=8)
         common.write_evidence(PID, "model_checking", cov, time.time() - t0, violations=len(verdict.violations),
                               assumptions=["histories are bounded in depth and in the call alphabet of each group (small-scope)",
                                            "overlapping calls: prescribed only while no eviction is involved; two overlapping misses on one key are left open",
